@@ -62,6 +62,11 @@ def main():
             pass
         else:
             mod.run(ctx, H)
+    except C.ImplPanic as e:
+        # a pure helper of the implementation panicked on a generated input: that input is the failing input
+        small = {k: (v if len(json.dumps(v)) < 4000 else "<%d bytes>" % len(json.dumps(v))) for k, v in e.case.items()}
+        ctx.violation("panic-%s" % e.obs.get("mode"), {"kind": "the implementation panicked (a helper of deserr called by the harness mode '%s')" % e.obs.get("mode"),
+                                                      "harness_case": small, "panic_message": e.obs.get("impl_panic")})
     except C.Broken as e:
         print("BROKEN CHECK %s: %s" % (prop, e))
         sys.exit(2)
